@@ -779,3 +779,92 @@ func SameCellLoad(a, b ssa.Value) bool {
 	}
 	return true
 }
+
+// FactsAtRefined is FactsAt plus what follows from pruning infeasible predecessors: at a
+// join block m that dominates b (or is b), a predecessor edge whose own facts contradict
+// what is already known at b (the same SSA condition with the opposite outcome — SSA values
+// do not change) cannot lie on a path to b; whatever holds on every remaining edge holds
+// at b too.  Typical case: the `else if a` arm after `if a && b`: the arm is entered with
+// a true, so it was not the a-false edge that led to the else block, hence b is false.
+// Joins with a feasible back edge are left alone (their facts are from another iteration).
+func FactsAtRefined(b *ssa.BasicBlock) []CondFact {
+	facts := FactsAt(b)
+	type key struct {
+		c ssa.Value
+		p bool
+	}
+	known := map[key]bool{}
+	add := func(fs []CondFact) {
+		for _, f := range fs {
+			known[key{f.Cond, f.Polarity}] = true
+		}
+	}
+	add(facts)
+	edgeFacts := func(p, m *ssa.BasicBlock) []CondFact {
+		out := FactsAt(p)
+		if ifi, ok := lastIf(p); ok && len(p.Succs) == 2 && p.Succs[0] != p.Succs[1] {
+			for idx, s := range p.Succs {
+				if s == m {
+					out = append(out, ExpandCond(CondFact{Cond: ifi.Cond, Polarity: idx == 0, If: ifi})...)
+				}
+			}
+		}
+		return out
+	}
+	for round := 0; round < 3; round++ {
+		grew := false
+		for m := b; m != nil; m = m.Idom() {
+			if len(m.Preds) < 2 {
+				continue
+			}
+			var sets [][]CondFact
+			bail := false
+			for _, p := range m.Preds {
+				ef := edgeFacts(p, m)
+				contra := false
+				for _, f := range ef {
+					if known[key{f.Cond, !f.Polarity}] {
+						contra = true
+						break
+					}
+				}
+				if contra {
+					continue
+				}
+				if m.Dominates(p) {
+					bail = true // a feasible back edge
+					break
+				}
+				sets = append(sets, ef)
+			}
+			if bail || len(sets) == 0 {
+				continue
+			}
+			for _, f := range sets[0] {
+				inAll := true
+				for _, s := range sets[1:] {
+					found := false
+					for _, g := range s {
+						if g.Cond == f.Cond && g.Polarity == f.Polarity {
+							found = true
+							break
+						}
+					}
+					if !found {
+						inAll = false
+						break
+					}
+				}
+				if inAll && !known[key{f.Cond, f.Polarity}] {
+					known[key{f.Cond, f.Polarity}] = true
+					facts = append(facts, f)
+					grew = true
+				}
+			}
+		}
+		if !grew {
+			break
+		}
+	}
+	return facts
+}
